@@ -62,7 +62,8 @@ theorem wanted_cons_beyond (pid : Nat) (endV : Option Nat) (e : SEv) (es : List 
 
 /-- the inner loop of the stream read -/
 theorem scanEvents_spec (pid count w : Nat) (endV : Option Nat) (c acc : List SEv) (hm : Bool)
-    (hlen : acc.length ≤ count) (hs : VSorted c) (hw : ∀ e ∈ c, goodEv pid e = true → e.ev.seq ≤ w) :
+    (hlen : acc.length ≤ count) (hs : VSorted c) (hall : ∀ e ∈ c, goodEv pid e = true)
+    (hw : ∀ e ∈ c, e.ev.seq < w) :
     ((scanEvents pid count w endV c acc hm).2.2 = .breakIter →
         (scanEvents pid count w endV c acc hm).2.1 = true ∧
         (scanEvents pid count w endV c acc hm).1 = acc ++ (wanted pid endV c).take (count - acc.length) ∧
@@ -75,12 +76,13 @@ theorem scanEvents_spec (pid count w : Nat) (endV : Option Nat) (c acc : List SE
   | nil => simp [scanEvents, wanted, hlen]
   | cons e es ih =>
     obtain ⟨_, hs'⟩ := vsorted_cons hs
-    have hw' : ∀ x ∈ es, goodEv pid x = true → x.ev.seq ≤ w := fun x hx => hw x (List.mem_cons_of_mem _ hx)
+    have hw' : ∀ x ∈ es, x.ev.seq < w := fun x hx => hw x (List.mem_cons_of_mem _ hx)
+    have hall' : ∀ x ∈ es, goodEv pid x = true := fun x hx => hall x (List.mem_cons_of_mem _ hx)
     by_cases hg : (e.ev.pid != pid) = true
     · have hbad : goodEv pid e = false := by simpa [goodEv] using hg
-      simp only [scanEvents, hg, ↓reduceIte, wanted_cons_bad pid endV e es hbad]
-      exact ih acc hm hlen hs' hw'
-    · have hgood : goodEv pid e = true := by simpa [goodEv] using hg
+      rw [hall e (by simp)] at hbad
+      cases hbad
+    · have hgood : goodEv pid e = true := hall e (by simp)
       simp only [scanEvents, hg, Bool.false_eq_true, ↓reduceIte]
       by_cases hc : acc.length ≥ count
       · have : count - acc.length = 0 := by omega
@@ -88,7 +90,7 @@ theorem scanEvents_spec (pid count w : Nat) (endV : Option Nat) (c acc : List SE
           and_true]
         intro _; omega
       · simp only [hc, ↓reduceIte]
-        have hwe : ¬ (e.ev.seq > w) := by have := hw e (by simp) hgood; omega
+        have hwe : ¬ (e.ev.seq ≥ w) := by have := hw e (by simp); omega
         simp only [hwe, ↓reduceIte]
         by_cases hb : beyondEnd endV e = true
         · simp only [hb, ↓reduceIte, reduceCtorEq, false_implies, true_and, wanted_cons_beyond pid endV e es hb hs,
@@ -96,7 +98,7 @@ theorem scanEvents_spec (pid count w : Nat) (endV : Option Nat) (c acc : List SE
           exact fun _ => ⟨hlen, trivial⟩
         · have hb' : beyondEnd endV e = false := by simpa using hb
           simp only [hb', Bool.false_eq_true, ↓reduceIte, wanted_cons_in pid endV e es hgood hb']
-          have := ih (acc ++ [e]) hm (by simp; omega) hs' hw'
+          have := ih (acc ++ [e]) hm (by simp; omega) hs' hall' hw'
           simp only [List.length_append, List.length_cons, List.length_nil, List.append_assoc, List.cons_append,
             List.nil_append] at this
           refine ⟨fun h => ?_, fun h => ?_⟩
@@ -130,18 +132,21 @@ theorem lastVer_mem (acc : List SEv) (h : acc ≠ []) : ∃ a ∈ acc, lastVer a
 theorem scanCommits_spec (pid count w : Nat) (endV : Option Nat) (cs : List (List SEv)) (acc : List SEv) (hm : Bool)
     (hlen : acc.length ≤ count) (hne : ∀ c ∈ cs, c ≠ []) (hs : VSorted cs.flatten)
     (hbefore : ∀ a ∈ acc, ∀ e ∈ cs.flatten, a.ev.version < e.ev.version)
-    (hw : ∀ e ∈ cs.flatten, goodEv pid e = true → e.ev.seq ≤ w) :
+    (hall : ∀ e ∈ cs.flatten, goodEv pid e = true)
+    (hw : ∀ e ∈ cs.flatten, e.ev.seq < w) :
     (scanCommits pid count w endV cs acc hm).1 = acc ++ (wanted pid endV cs.flatten).take (count - acc.length) ∧
     ((scanCommits pid count w endV cs acc hm).2 = false →
       hm = false ∧ acc.length + (wanted pid endV cs.flatten).length ≤ count) := by
   induction cs generalizing acc hm with
   | nil => simp [scanCommits, wanted, hlen]
   | cons c cs ih =>
-    simp only [List.flatten_cons] at hs hbefore hw ⊢
+    simp only [List.flatten_cons] at hs hbefore hw hall ⊢
     obtain ⟨hsc, hscs, hcross⟩ := vsorted_append hs
-    have hwc : ∀ e ∈ c, goodEv pid e = true → e.ev.seq ≤ w := fun e he => hw e (List.mem_append_left _ he)
-    have hwcs : ∀ e ∈ cs.flatten, goodEv pid e = true → e.ev.seq ≤ w := fun e he => hw e (List.mem_append_right _ he)
-    have hse := scanEvents_spec pid count w endV c acc hm hlen hsc hwc
+    have hwc : ∀ e ∈ c, e.ev.seq < w := fun e he => hw e (List.mem_append_left _ he)
+    have hwcs : ∀ e ∈ cs.flatten, e.ev.seq < w := fun e he => hw e (List.mem_append_right _ he)
+    have hallc : ∀ e ∈ c, goodEv pid e = true := fun e he => hall e (List.mem_append_left _ he)
+    have hallcs : ∀ e ∈ cs.flatten, goodEv pid e = true := fun e he => hall e (List.mem_append_right _ he)
+    have hse := scanEvents_spec pid count w endV c acc hm hlen hsc hallc hwc
     rw [wanted_append]
     simp only [scanCommits]
     generalize hr : scanEvents pid count w endV c acc hm = r at hse
@@ -212,7 +217,7 @@ theorem scanCommits_spec (pid count w : Nat) (endV : Option Nat) (cs : List (Lis
           exact h1
         · have hre' : reachedEnd endV acc1 = false := by simpa using hre
           simp only [hre', Bool.false_eq_true, ↓reduceIte]
-          have := ih acc1 hm1 (by omega) (fun c' hc' => hne c' (List.mem_cons_of_mem _ hc')) hscs hbefore1 hwcs
+          have := ih acc1 hm1 (by omega) (fun c' hc' => hne c' (List.mem_cons_of_mem _ hc')) hscs hbefore1 hallcs hwcs
           refine ⟨?_, fun h => ?_⟩
           · have e1 : (wanted pid endV c).length ≤ count - acc.length := by omega
             have e2 : count - acc.length - (wanted pid endV c).length = count - acc1.length := by omega
@@ -281,6 +286,21 @@ theorem stream_sorted (cfg : Cfg) (st : ServerState) (key start : Nat) (hwf : WF
     exact List.filter_sublist
   exact List.Pairwise.sublist (hsub.map _) hfull
 
+/-- a stream that lives in another partition: the first event ends the scan, nothing is reported -/
+theorem scanCommits_foreign (pid count w : Nat) (endV : Option Nat) (cs : List (List SEv))
+    (hne : ∀ c ∈ cs, c ≠ []) (hall : ∀ e ∈ cs.flatten, goodEv pid e = false) :
+    scanCommits pid count w endV cs [] false = ([], false) := by
+  cases cs with
+  | nil => rfl
+  | cons c cs =>
+    cases c with
+    | nil => exact absurd rfl (hne [] (by simp))
+    | cons e es =>
+      have hbad : (e.ev.pid != pid) = true := by
+        have := hall e (by simp)
+        simpa [goodEv] using this
+      simp only [scanCommits, scanEvents, hbad, ↓reduceIte]
+
 theorem scanStream_spec (cfg : Cfg) (st : ServerState) (pid : Nat) (stream : List Char) (start : Nat) (endV : Option Nat)
     (count : Nat) (hwf : WF cfg.numPartitions st.abs) :
     ∃ hm, scanStream cfg st pid stream start endV count =
@@ -290,32 +310,66 @@ theorem scanStream_spec (cfg : Cfg) (st : ServerState) (pid : Nat) (stream : Lis
   generalize hkey : streamKey (pid % cfg.numBuckets) stream = key
   unfold scanStream
   rw [hkey]
-  have hspec := scanCommits_spec pid count (st.watermark pid) endV (streamCommits st key start) [] false (by simp)
-    (streamCommits_ne st key start)
-    (by rw [flatten_streamCommits]; exact stream_sorted cfg st key start hwf)
-    (by intro a ha; simp at ha)
-    (by
-      intro e he hg
-      rw [flatten_streamCommits] at he
-      have hmem := (List.mem_filter.mp he).1
-      have := pid_seq_lt cfg st hwf e hmem
-      have hp : e.ev.pid = pid := by simpa [goodEv] using hg
-      rw [hp] at this
-      omega)
-  have hw : wanted pid endV (streamCommits st key start).flatten = streamRange st key pid start endV := by
-    rw [flatten_streamCommits]
-    unfold wanted streamRange
-    rw [List.filter_filter, List.filter_filter]
-    apply List.filter_congr
-    intro x _
-    simp only [Bool.and_assoc, Bool.and_comm, Bool.and_left_comm]
-  rw [hw] at hspec
-  simp only [List.nil_append, List.length_nil, Nat.sub_zero, Nat.zero_add] at hspec
-  refine ⟨(scanCommits pid count (st.watermark pid) endV (streamCommits st key start) [] false).2, ?_, ?_⟩
-  · simp only
-    rw [hspec.1]
-  · intro h
-    have := (hspec.2 h).2
-    exact List.take_of_length_le this
+  have hflat := flatten_streamCommits st key start
+  have hmemS : ∀ e ∈ (streamCommits st key start).flatten, e ∈ st.events ∧ e.ev.stream = key := by
+    intro e he
+    rw [hflat] at he
+    have := List.mem_filter.mp he
+    simp only [Bool.and_eq_true, beq_iff_eq] at this
+    exact ⟨this.1, this.2.1⟩
+  by_cases hgood : ∀ e ∈ (streamCommits st key start).flatten, goodEv pid e = true
+  · have hspec := scanCommits_spec pid count (st.watermark pid) endV (streamCommits st key start) [] false (by simp)
+      (streamCommits_ne st key start)
+      (by rw [hflat]; exact stream_sorted cfg st key start hwf)
+      (by intro a ha; simp at ha)
+      hgood
+      (by
+        intro e he
+        have hmem := (hmemS e he).1
+        have := pid_seq_lt cfg st hwf e hmem
+        have hp : e.ev.pid = pid := by simpa [goodEv] using hgood e he
+        rw [hp] at this
+        exact this)
+    have hw : wanted pid endV (streamCommits st key start).flatten = streamRange st key pid start endV := by
+      rw [hflat]
+      unfold wanted streamRange
+      rw [List.filter_filter, List.filter_filter]
+      apply List.filter_congr
+      intro x _
+      simp only [Bool.and_assoc, Bool.and_comm, Bool.and_left_comm]
+    rw [hw] at hspec
+    simp only [List.nil_append, List.length_nil, Nat.sub_zero, Nat.zero_add] at hspec
+    refine ⟨(scanCommits pid count (st.watermark pid) endV (streamCommits st key start) [] false).2, ?_, ?_⟩
+    · simp only
+      rw [hspec.1]
+    · intro h
+      have := (hspec.2 h).2
+      exact List.take_of_length_le this
+  · -- some event of the stream is in another partition: then all of them are
+    have hex : ∃ e0 ∈ (streamCommits st key start).flatten, goodEv pid e0 = false := by
+      apply Classical.byContradiction
+      intro hno
+      apply hgood
+      intro e he
+      cases hg : goodEv pid e with
+      | true => rfl
+      | false => exact absurd ⟨e, he, hg⟩ hno
+    obtain ⟨e0, he0, hg0⟩ := hex
+    have hp0 : e0.ev.pid ≠ pid := by simpa [goodEv] using hg0
+    have hallbad : ∀ e ∈ st.events, e.ev.stream = key → goodEv pid e = false := by
+      intro e he hs
+      have := same_stream_same_pid cfg st hwf e e0 he (hmemS e0 he0).1 (by rw [hs, (hmemS e0 he0).2])
+      simp only [goodEv, beq_eq_false_iff_ne, ne_eq]
+      rw [this]; exact hp0
+    have hnil : streamRange st key pid start endV = [] := by
+      unfold streamRange
+      apply List.filter_eq_nil_iff.mpr
+      intro x hx
+      by_cases hs : x.ev.stream = key
+      · simp [hallbad x hx hs]
+      · simp [hs]
+    rw [scanCommits_foreign pid count (st.watermark pid) endV (streamCommits st key start)
+      (streamCommits_ne st key start) (fun e he => hallbad e (hmemS e he).1 (hmemS e he).2)]
+    exact ⟨false, by simp [hnil], by simp [hnil]⟩
 
 end SierraModel.Server
